@@ -212,6 +212,10 @@ func checkC08(c *Ctx) {
 		}
 		c.Oblige("C08.split", ShortName(p)+"/pipeline", c.Prog.FuncPos(p), okChain, why)
 	}
+	if n := checkShifts(c, "C08.split", pkgBB); true {
+		// blocks.split opens the slot for the second half by a shift
+		c.RequireCount("C08.split in-place shift in basicblock (blocks.split insertion)", n, 1)
+	}
 	if sa := anchor(c, pkgBB+".splitByAddress"); sa != nil {
 		// an append of a sub-sequence inside the loop happens only on End() != Begin()
 		n, bad := 0, ""
@@ -542,6 +546,9 @@ func checkC26(c *Ctx) {
 	c.Rule("C26.err", "error propagation: every call that returns an error in cmd/mltwist, elf, parser, deps and basicblock is either returned (possibly wrapped) or checked against nil with the failure branch returning a non-nil error / terminating")
 	c.Rule("C26.exit", "main prints a non-nil error of run() to os.Stderr and calls os.Exit with a non-zero constant; run() rejects argument vectors whose length is not 2 before touching the file")
 	c.Rule("C26.alloc", "an allocation whose size derives from an ELF header field (Prog.Memsz/Filesz, Section.Size) is dominated by an upper bound on that size")
+	c.Rule("C26.pre", "length preconditions: a byte-slice length that a function relies on without checking (constant index/reslice, panic guarded by len(p) < k, or a callee's such need) is established at every call site; functions reached through an interface with a slice of any length (riscv Parser.Parse) rely on nothing unchecked")
+	np := checkLenPre(c, "C26.pre", []string{pkgRiscv, pkgParser, pkgElf, pkgDeps, pkgBB, "internal/opcode"})
+	c.RequireCount("C26.pre call sites and entry points with a length precondition", np, 2)
 	exc := map[string]string{
 		"cmd/mltwist.parseElf/(*internal/elf.Parser).Close#1": "deferred Close of a file that was only read: its error cannot change the loaded image",
 	}
